@@ -299,7 +299,15 @@ func Main(t *testing.T) {
 	for i, c := range cl {
 		weights[i] = c.weight
 	}
+	onlyRun := -1
+	if v := os.Getenv("VERIF_ONLY_RUN"); v != "" {
+		// triage of a crash: execute exactly one run index (the crash report names it)
+		onlyRun, _ = strconv.Atoi(v)
+	}
 	for i := worker; i < maxRuns && time.Since(start) < budget; i += nworkers {
+		if onlyRun >= 0 && i != onlyRun {
+			continue
+		}
 		runSeed := splitmix(seed*1000003 + uint64(i))
 		if progress != "" {
 			_ = os.WriteFile(progress, []byte(fmt.Sprintf("%d %d %d\n", seed, i, runSeed)), 0o644)
